@@ -2,6 +2,7 @@ package actionlint
 
 import (
 	"fmt"
+	"sort"
 	"strings"
 )
 
@@ -89,7 +90,15 @@ func (rule *RuleWorkflowCall) checkWorkflowCallUsesLocal(call *WorkflowCall) {
 	}
 
 	// Validate inputs
-	for n, i := range m.Inputs {
+	// Note: Required inputs and secrets are iterated in sorted order since iteration order of map
+	// is random and the errors are reported at the same position.
+	inputIDs := make([]string, 0, len(m.Inputs))
+	for n := range m.Inputs {
+		inputIDs = append(inputIDs, n)
+	}
+	sort.Strings(inputIDs)
+	for _, n := range inputIDs {
+		i := m.Inputs[n]
 		if i != nil && i.Required {
 			if _, ok := call.Inputs[n]; !ok {
 				rule.Errorf(u.Pos, "input %q is required by %q reusable workflow", i.Name, u.Value)
@@ -116,7 +125,13 @@ func (rule *RuleWorkflowCall) checkWorkflowCallUsesLocal(call *WorkflowCall) {
 
 	// Validate secrets
 	if !call.InheritSecrets {
-		for n, s := range m.Secrets {
+		secretIDs := make([]string, 0, len(m.Secrets))
+		for n := range m.Secrets {
+			secretIDs = append(secretIDs, n)
+		}
+		sort.Strings(secretIDs)
+		for _, n := range secretIDs {
+			s := m.Secrets[n]
 			if s.Required {
 				if _, ok := call.Secrets[n]; !ok {
 					rule.Errorf(u.Pos, "secret %q is required by %q reusable workflow", s.Name, u.Value)
